@@ -1213,6 +1213,7 @@ type freeAdd struct {
 }
 
 type freeCase struct {
+	Shared    bool         `json:"shared_wal"` // all goroutines use ONE *wal.WAL (one process, many goroutines) instead of one each
 	Appenders [][]freeAdd  `json:"appenders"`
 	Listers   [][]listSpec `json:"listers,omitempty"`
 	Final     []listSpec   `json:"final"`
@@ -1230,6 +1231,7 @@ type freeListRec struct {
 
 func drawFree(t *rapid.T) freeCase {
 	var c freeCase
+	c.Shared = rapid.Bool().Draw(t, "shared_wal")
 	nApp := rapid.IntRange(2, 8).Draw(t, "appenders")
 	mode := drawMode(t)
 	total := 0
@@ -1261,7 +1263,13 @@ func drawFree(t *rapid.T) freeCase {
 func runFree(c freeCase) (*runInfo, error) {
 	gen, ws := memstore.NewBackend("gen"), memstore.NewBackend("wal")
 	// the generator object exists before anybody starts (as in a deployed context)
-	_ = wal.New(gen.View("init"), ws.View("init"), wal.Logger(hx.Nop))
+	shared := wal.New(gen.View("init"), ws.View("init"), wal.Logger(hx.Nop))
+	newWAL := func(name string) *wal.WAL {
+		if c.Shared {
+			return shared
+		}
+		return wal.New(gen.View(name), ws.View(name), wal.Logger(hx.Nop))
+	}
 	var ev int64
 	var mu sync.Mutex
 	var done []entry // completed appends
@@ -1286,7 +1294,7 @@ func runFree(c freeCase) (*runInfo, error) {
 		go func() {
 			defer wg.Done()
 			if err := safely(name, func() {
-				w := wal.New(gen.View(name), ws.View(name), wal.Logger(hx.Nop))
+				w := newWAL(name)
 				for j, r := range recs {
 					gen.Advance(time.Duration(as[j].AdvMs) * time.Millisecond)
 					r.startEv = atomic.AddInt64(&ev, 1)
@@ -1317,7 +1325,7 @@ func runFree(c freeCase) (*runInfo, error) {
 		go func() {
 			defer wg.Done()
 			if err := safely(name, func() {
-				w := wal.New(gen.View(name), ws.View(name), wal.Logger(hx.Nop))
+				w := newWAL(name)
 				for j, l := range ls {
 					r := recs[j]
 					mu.Lock()
@@ -1371,7 +1379,7 @@ func runFree(c freeCase) (*runInfo, error) {
 		r.partial = true
 		info.lists = append(info.lists, &r.listObs)
 	}
-	fw := wal.New(gen.View("final"), ws.View("final"), wal.Logger(hx.Nop))
+	fw := newWAL("final")
 	for i, l := range c.Final {
 		o := &listObs{what: fmt.Sprintf("final listing #%d %+v", i, l), from: l.resolve(tokensOf(all), gen.Now()), max: l.Max, visible: all}
 		list(fw, o)
@@ -1461,6 +1469,9 @@ func checkFree(t fataler, c freeCase) {
 		for _, a := range as {
 			ps = append(ps, a.P)
 		}
+	}
+	if c.Shared {
+		stats.Count("free_shared_wal", 1)
 	}
 	record("free", len(c.Appenders), ps, info, func() interface{} { return c })
 }
